@@ -160,7 +160,7 @@ func runC10(w *World) {
 				notifSent = true
 			}
 		}
-		sn.eligible = c.Handed && c.OpenSeq > 0 && c.OpenSeq < lastQ && !c.Tainted && !c.LClosed && !notifSent && c.Malformed == ""
+		sn.eligible = c.Handed && c.OpenSeq > 0 && !c.Tainted && !c.LClosed && !notifSent && c.Malformed == ""
 		if c.Handed && !c.LClosed {
 			hit = true
 			if !sn.eligible {
@@ -349,7 +349,7 @@ func runC10(w *World) {
 				w.Probe("ties:hold-expiry-vs-shutdown")
 				continue
 			}
-			w.Violate("C10/cease/missing-"+action, "%s had sent its OPEN (quiescent since), neither side had sent a NOTIFICATION or closed, yet %s closed it without sending a Cease: %s", c, action, descFrames(fs))
+			w.Violate("C10/cease/missing-"+action, "%s had sent its OPEN, neither side had sent a NOTIFICATION or closed, yet %s closed it without sending a Cease: %s", c, action, descFrames(fs))
 			return
 		}
 	}
